@@ -20,6 +20,7 @@ type Item struct {
 	Pred string `json:"pred,omitempty"` // clause, decl, init
 	ID   int    `json:"id,omitempty"`   // clause serial number / output tag
 	Rule bool   `json:"rule,omitempty"` // p(X) :- X = ID.  instead of  p(ID).
+	Alt  bool   `json:"alt,omitempty"`  // p(X) :- X = ID ; X = ID+altOffset.  (one clause of the text, two alternatives)
 	Decl string `json:"decl,omitempty"` // dynamic | discontiguous | multifile
 	Form int    `json:"form,omitempty"` // declaration form: p/1, [p/1], (p/1, p/1)
 }
@@ -45,28 +46,49 @@ type Case struct {
 	Steps []Step `json:"steps"`
 }
 
-var preds = []string{"p1", "p2", "p3", "p4"}
+var preds = []string{"p1", "p2", "p3", "p4", "w3"}
+
+const altOffset = 500000
+
+// w3 has arity 3 and structured head arguments; the others are unary. The clause's number is the
+// argument X of head(p, "X").
+func arity(p string) int {
+	if strings.HasSuffix(p, "w3") {
+		return 3
+	}
+	return 1
+}
+
+func head(p, arg string) string {
+	if arity(p) == 3 {
+		return fmt.Sprintf("%s(f(%s), g(_), h(_))", p, arg)
+	}
+	return fmt.Sprintf("%s(%s)", p, arg)
+}
 
 func (it Item) text() string {
 	switch it.Kind {
 	case "clause":
-		if it.Rule {
-			return fmt.Sprintf("%s(X) :- X = %d.\n", it.Pred, it.ID)
+		if it.Alt {
+			return fmt.Sprintf("%s :- X = %d ; X = %d.\n", head(it.Pred, "X"), it.ID, it.ID+altOffset)
 		}
-		return fmt.Sprintf("%s(%d).\n", it.Pred, it.ID)
+		if it.Rule {
+			return fmt.Sprintf("%s :- X = %d.\n", head(it.Pred, "X"), it.ID)
+		}
+		return fmt.Sprintf("%s.\n", head(it.Pred, fmt.Sprint(it.ID)))
 	case "decl":
 		switch it.Form {
 		case 0:
-			return fmt.Sprintf(":- %s(%s/1).\n", it.Decl, it.Pred)
+			return fmt.Sprintf(":- %s(%s/%d).\n", it.Decl, it.Pred, arity(it.Pred))
 		case 1:
-			return fmt.Sprintf(":- %s([%s/1]).\n", it.Decl, it.Pred)
+			return fmt.Sprintf(":- %s([%s/%d]).\n", it.Decl, it.Pred, arity(it.Pred))
 		default:
-			return fmt.Sprintf(":- %s((%s/1, zz%s/1)).\n", it.Decl, it.Pred, it.Pred)
+			return fmt.Sprintf(":- %s((%s/%d, zz%s/%d)).\n", it.Decl, it.Pred, arity(it.Pred), it.Pred, arity(it.Pred))
 		}
 	case "out":
 		return fmt.Sprintf(":- write(d%d).\n", it.ID)
 	case "init":
-		return fmt.Sprintf(":- initialization((findall(X, %s(X), L), write(i(L)))).\n", it.Pred)
+		return fmt.Sprintf(":- initialization((findall(X, %s, L), write(i(L)))).\n", head(it.Pred, "X"))
 	}
 	return ""
 }
@@ -80,7 +102,7 @@ func (f Fault) text() string {
 	case "syntax", "noncallable", "directive":
 		return f.Arg
 	case "discontiguous":
-		return fmt.Sprintf("%s(999).\n", f.Arg)
+		return fmt.Sprintf("%s.\n", head(f.Arg, "999"))
 	}
 	return ""
 }
@@ -104,7 +126,7 @@ func (c Case) String() string {
 	fmt.Fprintf(&b, "via %s\n", c.Via)
 	for k, s := range c.Steps {
 		if s.Kind == "assertz" {
-			fmt.Fprintf(&b, "step %d: assertz(%s(%d))\n", k+1, s.Pred, s.ID)
+			fmt.Fprintf(&b, "step %d: assertz(%s)\n", k+1, head(s.Pred, fmt.Sprint(s.ID)))
 			continue
 		}
 		fmt.Fprintf(&b, "step %d: load (after %d fault-injected variants %v):\n%s", k+1, len(s.Faults), s.Faults, render(s.Items, nil))
@@ -152,6 +174,9 @@ func (m model) applyLoad(items []Item) string {
 		case "clause":
 			i := get(it.Pred)
 			i.clauses = append(i.clauses, it.ID)
+			if it.Alt {
+				i.clauses = append(i.clauses, it.ID+altOffset)
+			}
 		case "decl":
 			names := []string{it.Pred}
 			if it.Form == 2 {
@@ -191,7 +216,7 @@ func (m model) applyLoad(items []Item) string {
 }
 
 func observe(i *sut.I, p string) (string, error) {
-	res := i.Query(fmt.Sprintf("catch(findall(X, %s(X), L), error(E, _), L = err(E)).", p), []string{"L"}, 1, 500000)
+	res := i.Query(fmt.Sprintf("catch(findall(X, %s, L), error(E, _), L = err(E)).", head(p, "X")), []string{"L"}, 1, 500000)
 	if res.Err != nil || len(res.Answers) != 1 {
 		return "", fmt.Errorf("observing %s/1 failed: %v", p, res.Err)
 	}
@@ -276,7 +301,7 @@ func check(c Case) (st stats, err error) {
 			if !ok || !pm.dynamic {
 				continue
 			}
-			res := i.Query(fmt.Sprintf("assertz(%s(%d)).", s.Pred, s.ID), []string{}, 1, 100000)
+			res := i.Query(fmt.Sprintf("assertz(%s).", head(s.Pred, fmt.Sprint(s.ID))), []string{}, 1, 100000)
 			if res.Err != nil || len(res.Answers) != 1 {
 				return st, fmt.Errorf("step %d: assertz(%s(%d)) on a dynamic predicate failed: %v", k+1, s.Pred, s.ID, res.Err)
 			}
@@ -337,8 +362,8 @@ type run struct {
 
 func genText(t *rapid.T, serial *int) ([]Item, bool) {
 	np := 1 + u(t, 3, "npreds")
-	order := []int{0, 1, 2, 3}
-	for k := 3; k > 0; k-- { // permutation from draws
+	order := []int{0, 1, 2, 3, 4}
+	for k := 4; k > 0; k-- { // permutation from draws
 		j := u(t, k+1, "perm")
 		order[k], order[j] = order[j], order[k]
 	}
@@ -388,7 +413,7 @@ func genText(t *rapid.T, serial *int) ([]Item, bool) {
 			items = append(items, Item{Kind: "init", Pred: rn.pred})
 		}
 		for _, id := range rn.ids {
-			items = append(items, Item{Kind: "clause", Pred: rn.pred, ID: id, Rule: u(t, 2, "rule") == 0})
+			items = append(items, Item{Kind: "clause", Pred: rn.pred, ID: id, Rule: u(t, 2, "rule") == 0, Alt: u(t, 5, "alt") == 0})
 		}
 	}
 	return items, interleaved
@@ -450,7 +475,7 @@ func genCase(all bool) *rapid.Generator[Case] {
 func TestProp(t *testing.T) {
 	r := h.Start(t, "C20")
 	defer r.Finish(t)
-	r.Rule("rapid-generated histories of 1-4 loads on one interpreter (through Exec, or through consult/1 of a file - a new file name after every successful load, the same name again after a failed one), optionally followed by assertz on a dynamic predicate. A text defines 1-3 of the predicates p1..p4 by clauses carrying serial numbers (facts and rules), in runs of 1-7 clauses, several interleaved runs for predicates declared discontiguous, with dynamic/discontiguous/multifile declarations in the three forms (p/1, [p/1], (p/1, q/1)), declaration-only predicates, output directives between runs of different predicates and initialization/1 goals that print what they can see. Fault injection: before the good text is loaded, one fault of each kind is injected at every position (quick: at a third of the positions) - a syntax error (unbalanced bracket, stray token, unterminated quoted atom / string / comment / 0', missing end), a non-callable clause, a failing / throwing / unknown directive, a clause that makes a predicate discontiguous without declaration - and every such text is loaded on the same interpreter. Oracle: a model map predicate -> clause list. A faulty text must make the load return an error and leave every predicate (of this and of earlier texts) enumerating exactly as before (answers, or the same existence error); a good text must load, give every predicate of the text exactly its clauses in source order (replacing the earlier definition unless multifile on both sides, then appended), the directives' output in text order followed by the initialization goals' output computed on the loaded database. Non-trivial: a text with >= 2 predicates or interleaved runs loaded over an earlier text, with faults injected. Distinct by case.",
+	r.Rule("rapid-generated histories of 1-4 loads on one interpreter (through Exec, or through consult/1 of a file - a new file name after every successful load, the same name again after a failed one), optionally followed by assertz on a dynamic predicate. A text defines 1-3 of the predicates p1..p4 (unary) and w3/3 (structured head arguments) by clauses carrying serial numbers (facts, rules, and rules whose body is a top-level disjunction - one clause of the text, two alternatives in source order), in runs of 1-7 clauses, several interleaved runs for predicates declared discontiguous, with dynamic/discontiguous/multifile declarations in the three forms (p/1, [p/1], (p/1, q/1)), declaration-only predicates, output directives between runs of different predicates and initialization/1 goals that print what they can see. Fault injection: before the good text is loaded, one fault of each kind is injected at every position (quick: at a third of the positions) - a syntax error (unbalanced bracket, stray token, unterminated quoted atom / string / comment / 0', missing end), a non-callable clause, a failing / throwing / unknown directive, a clause that makes a predicate discontiguous without declaration - and every such text is loaded on the same interpreter. Oracle: a model map predicate -> clause list. A faulty text must make the load return an error and leave every predicate (of this and of earlier texts) enumerating exactly as before (answers, or the same existence error); a good text must load, give every predicate of the text exactly its clauses in source order (replacing the earlier definition unless multifile on both sides, then appended), the directives' output in text order followed by the initialization goals' output computed on the loaded database. Non-trivial: a text with >= 2 predicates or interleaved runs loaded over an earlier text, with faults injected. Distinct by case.",
 		"the load model in props/c20", "effects of directives that ran before a fault are not asserted (only output directives are generated); a directive between two clauses of one predicate is never generated")
 	r.Regress(t)
 	if r.Failed() {
